@@ -2,6 +2,7 @@
 
   exponax/_utils.py             rollout, repeat (each for takes_aux = False / True, the other flags symbolic)   -> gen_rollout, gen_rollout_aux,
                                                                                                                   gen_repeat, gen_repeat_aux
+                                stack_sub_trajectories (guards, window count, window at start index i)          -> gen_stack_sub_trajectories
   exponax/_repeated_stepper.py  RepeatedStepper.step, .step_fourier, the dt of __init__                         -> gen_repeated_*
   exponax/_forced_stepper.py    ForcedStepper.step, .step_fourier (the forced input, the call of the inner step) -> gen_forced_*
 
@@ -221,6 +222,63 @@ def tr_forced():
     return "\n".join(out)
 
 
+def tr_stack_sub(tree):
+    """stack_sub_trajectories: the two rejection tests, the number of windows and the window taken at start index i are translated;
+    the scan over jnp.arange(n_sub_trjs) stacking the sliced trees leafwise is the contract (output leaf = list of its windows)"""
+    fn = find_func(tree.body, "stack_sub_trajectories")
+    if [a.arg for a in fn.args.args] != ["trj", "sub_len"] or fn.args.kwonlyargs:
+        raise TranslationError("stack_sub_trajectories signature")
+    b = strip_doc(fn.body)
+    if len(b) != 7:
+        raise TranslationError(f"stack_sub_trajectories: {len(b)} statements, expected 7")
+    if not same(b[0], "n_time_steps = [leaf.shape[0] for leaf in jtu.tree_leaves(trj)]"):
+        raise TranslationError("stack_sub_trajectories: leading lengths " + ast.unparse(b[0]))
+    g = b[1]
+    if not (isinstance(g, ast.If) and len(g.body) == 1 and isinstance(g.body[0], ast.Raise) and len(g.orelse) == 1
+            and same(g.orelse[0], "n_time_steps = n_time_steps[0]")):
+        raise TranslationError("stack_sub_trajectories: equal-length guard")
+    t = g.test
+    if not (isinstance(t, ast.Compare) and ast.unparse(t.left) == "len(set(n_time_steps))" and len(t.ops) == 1
+            and isinstance(t.comparators[0], ast.Constant) and isinstance(t.comparators[0].value, int)):
+        raise TranslationError("stack_sub_trajectories: guard test " + ast.unparse(t))
+    op = {ast.NotEq: "negb (Nat.eqb (distinct_count lens) %d)", ast.Eq: "Nat.eqb (distinct_count lens) %d"}.get(type(t.ops[0]))
+    if op is None:
+        raise TranslationError("stack_sub_trajectories: guard operator")
+    rej1 = op % t.comparators[0].value
+    g2 = b[2]
+    if not (isinstance(g2, ast.If) and len(g2.body) == 1 and isinstance(g2.body[0], ast.Raise) and not g2.orelse and isinstance(g2.test, ast.Compare)
+            and len(g2.test.ops) == 1):
+        raise TranslationError("stack_sub_trajectories: length guard")
+    names = {"sub_len": "sub_len", "n_time_steps": "T"}
+    l, r = ast.unparse(g2.test.left), ast.unparse(g2.test.comparators[0])
+    cmp = {ast.Gt: "Nat.ltb {r} {l}", ast.GtE: "Nat.leb {r} {l}", ast.Lt: "Nat.ltb {l} {r}", ast.LtE: "Nat.leb {l} {r}"}.get(type(g2.test.ops[0]))
+    if cmp is None or l not in names or r not in names:
+        raise TranslationError("stack_sub_trajectories: length test " + ast.unparse(g2.test))
+    rej2 = cmp.format(l=names[l], r=names[r])
+
+    def nat(e):
+        if isinstance(e, ast.Name) and e.id in names:
+            return names[e.id]
+        if isinstance(e, ast.Constant) and isinstance(e.value, int) and e.value >= 0:
+            return str(e.value)
+        if isinstance(e, ast.BinOp) and isinstance(e.op, (ast.Add, ast.Sub)):
+            return f"({nat(e.left)} {'+' if isinstance(e.op, ast.Add) else '-'} {nat(e.right)})"
+        raise TranslationError("count expression " + ast.unparse(e))
+    if not (isinstance(b[3], ast.Assign) and ast.unparse(b[3].targets[0]) == "n_sub_trjs"):
+        raise TranslationError("stack_sub_trajectories: window count")
+    # Python's ints are unbounded, the model's nat subtraction truncates: T - sub_len is only evaluated after the guard T >= sub_len
+    count = nat(b[3].value)
+    want = ["def scan_fn(_, i):\n    sliced = jtu.tree_map(lambda leaf: jax.lax.dynamic_slice_in_dim(leaf, start_index=i, slice_size=sub_len, axis=0), trj)\n    return (_, sliced)",
+            "_, sub_trjs = jax.lax.scan(scan_fn, None, jnp.arange(n_sub_trjs))", "return sub_trjs"]
+    if not all(same(x, t2) for x, t2 in zip(b[4:], want)):
+        raise TranslationError("stack_sub_trajectories: scan " + repr([ast.unparse(x) for x in b[4:]])[:300])
+    return ("Definition gen_stack_sub_trajectories (A : Type) (leaves : list (list A)) (sub_len : nat) : option (list (list (list A))) :=\n"
+            "  let lens := map (@length A) leaves in\n"
+            f"  if {rej1} then None else\n  let T := hd 0 lens in\n  if {rej2} then None else\n"
+            f"  let n_sub_trjs := {count} in\n"
+            "  Some (map (fun leaf => map (fun i => dynamic_slice leaf i sub_len) (seq 0 n_sub_trjs)) leaves).")
+
+
 PRELUDE = """(* GENERATED by harness/translate/utilsfn.py from /repo/exponax/_utils.py, _repeated_stepper.py, _forced_stepper.py -- do not edit. *)
 From Coq Require Import ZArith List Arith Bool.
 From EXV Require Import Base.Scalar Utils.Rollout.
@@ -234,6 +292,8 @@ Definition scan_xs {X : Type} (n : nat) (a : auxarg X) : option (list X) :=
   match a with AuxSeq xs => if Nat.eqb (length xs) n then Some xs else None | AuxConst _ => None end.
 Definition tree_repeat {X : Type} (n : nat) (a : auxarg X) : option (auxarg X) :=
   match a with AuxConst x => Some (AuxSeq (repeat x n)) | AuxSeq _ => None end.
+(* len(set(l)) for a list of ints *)
+Definition distinct_count (l : list nat) : nat := length (nodup Nat.eq_dec l).
 """
 
 
@@ -242,6 +302,7 @@ def generate():
     parts = [PRELUDE,
              tr_utility(tree, "rollout", ["include_init", "takes_aux", "constant_aux"], "list A"), "",
              tr_utility(tree, "repeat", ["takes_aux", "constant_aux"], "A"), "",
+             tr_stack_sub(tree), "",
              tr_repeated(), "", tr_forced(), ""]
     return "\n".join(parts)
 
